@@ -370,3 +370,81 @@ pub fn shape_labels(xs: &[Rat], n: usize) -> Vec<String> {
     }
     l
 }
+
+/// Very long integer streams (on a grid chosen by the caller) derived from a proptest-chosen seed; used by the `ultra`
+/// clauses that run past 2^16 / 2^17 updates. shape 0: wide noise; 1: walk with 257-step plateaus (flat windows after
+/// volatile ones); 2: zero stretches alternating with noise; 3: ties around a level.
+pub fn ultra_stream(seed: u64, len: usize, shape: i64) -> Vec<i64> {
+    let mut st = seed;
+    let mut level: i64 = 50_000;
+    (0..len)
+        .map(|t| {
+            let r = splitmix(&mut st);
+            match shape {
+                0 => (r % 2_000_001) as i64 - 1_000_000,
+                1 => {
+                    if (t / 257) % 2 == 0 {
+                        level += (r % 2001) as i64 - 1000;
+                    }
+                    level
+                }
+                2 => {
+                    if (t / 64) % 2 == 0 {
+                        0
+                    } else {
+                        (r % 2001) as i64 - 1000
+                    }
+                }
+                _ => {
+                    if r % 5 == 0 {
+                        level
+                    } else {
+                        level + (r % 3) as i64 - 1
+                    }
+                }
+            }
+        })
+        .collect()
+}
+/// the steps at which an ultra clause evaluates a definition that is too expensive to evaluate everywhere. Always: around
+/// every power of two b from 2^16 on (b-1, b, b+1, b+m+1: where a narrowed counter wraps or saturates, and once its effect
+/// has filled a window of m) and the last two steps; then, up to `budget` steps in total, further steps next to those
+/// boundaries, the last 40 steps and 96 steps drawn from the seed.
+pub fn ultra_checkpoints(seed: u64, len: usize, m: usize, budget: usize) -> Vec<usize> {
+    let mut must = std::collections::BTreeSet::new();
+    let mut opt = std::collections::BTreeSet::new();
+    let mut b = 1usize << 16;
+    while b < len + 8 {
+        for t in [b - 1, b, b + 1, b + m + 1] {
+            if t < len {
+                must.insert(t);
+            }
+        }
+        for t in b.saturating_sub(8)..=(b + m + 8) {
+            if t < len {
+                opt.insert(t);
+            }
+        }
+        b <<= 1;
+    }
+    for t in len.saturating_sub(2)..len {
+        must.insert(t);
+    }
+    for t in len.saturating_sub(40)..len {
+        opt.insert(t);
+    }
+    let mut st = seed ^ 0xC0FFEE;
+    for _ in 0..96 {
+        opt.insert((splitmix(&mut st) % len.max(1) as u64) as usize);
+    }
+    let opt: Vec<usize> = opt.into_iter().filter(|t| !must.contains(t)).collect();
+    let room = budget.saturating_sub(must.len());
+    if room > 0 && !opt.is_empty() {
+        let stride = (opt.len() + room - 1) / room;
+        let off = (seed as usize) % stride.max(1);
+        for t in opt.into_iter().skip(off).step_by(stride.max(1)) {
+            must.insert(t);
+        }
+    }
+    must.into_iter().collect()
+}
